@@ -247,3 +247,73 @@ Definition collect_metadata_cache_clear (p : collect_st) : collect_st := {| cc_c
 Definition slice_state (s : nstate) : nat := st_n s.
 Definition slice_state_set (n : nat) (s : nstate) : nstate := set_n s n (st_detached s).
 Definition slice_detach (s : nstate) : nstate := set_n s (st_n s) true.
+
+(* ---- combine_latest / zip_latest: python keeps three parallel attributes
+          last     : list, the latest value per upstream (None before the first)
+          metadata : list, the metadata that came with it (None before the first)
+          missing  : set of the upstreams that have not emitted yet
+        (zip_latest also lossless_buffer, a deque of (value, metadata)).  The model keeps st_last : per upstream
+        None (= missing) or Some (value, metadata), and st_win for the buffer. *)
+Record latest_st := { ls_last : list val; ls_meta : list (option md); ls_missing : list bool; ls_buf : list (val * md) }.
+Definition latest_val (o : option (val * md)) : val := match o with Some (v, _) => v | None => VNone end.
+Definition latest_md (o : option (val * md)) : option md := option_map snd o.
+Definition latest_load (s : nstate) : latest_st :=
+  {| ls_last := map latest_val (st_last s); ls_meta := map latest_md (st_last s);
+     ls_missing := map is_none (st_last s); ls_buf := st_win s |}.
+Fixpoint latest_zip (l : list val) (m : list (option md)) (x : list bool) : list (option (val * md)) :=
+  match l, m, x with
+  | v :: l', om :: m', b :: x' =>
+      (if b then None else Some (v, match om with Some d => d | None => [] end)) :: latest_zip l' m' x'
+  | _, _, _ => []
+  end.
+Definition combine_latest_store (s : nstate) (p : latest_st) : nstate :=
+  set_last s (latest_zip (ls_last p) (ls_meta p) (ls_missing p)).
+Definition zip_latest_store (s : nstate) (p : latest_st) : nstate :=
+  set_win (set_last s (latest_zip (ls_last p) (ls_meta p) (ls_missing p))) (ls_buf p).
+
+Definition truthy_optmd (o : option md) : bool := match o with Some m => truthy_md m | None => false end.
+Definition truthy_flags (l : list bool) : bool := existsb (fun b => b) l.       (* a non-empty set *)
+(* [m for ml in self.metadata for m in ml]: iterating None raises *)
+Fixpoint flatten_optmd (l : list (option md)) : option md :=
+  match l with
+  | [] => Some []
+  | Some m :: t => match flatten_optmd t with Some r => Some (m ++ r) | None => None end
+  | None :: _ => None
+  end.
+
+Definition ls_set_last f (p : latest_st) : latest_st :=
+  {| ls_last := f (ls_last p); ls_meta := ls_meta p; ls_missing := ls_missing p; ls_buf := ls_buf p |}.
+Definition ls_set_meta f (p : latest_st) : latest_st :=
+  {| ls_last := ls_last p; ls_meta := f (ls_meta p); ls_missing := ls_missing p; ls_buf := ls_buf p |}.
+Definition ls_set_missing f (p : latest_st) : latest_st :=
+  {| ls_last := ls_last p; ls_meta := ls_meta p; ls_missing := f (ls_missing p); ls_buf := ls_buf p |}.
+Definition ls_set_buf f (p : latest_st) : latest_st :=
+  {| ls_last := ls_last p; ls_meta := ls_meta p; ls_missing := ls_missing p; ls_buf := f (ls_buf p) |}.
+
+Definition combine_latest_last (p : latest_st) : list val := ls_last p.
+Definition combine_latest_last_setitem (i : nat) (v : val) : latest_st -> latest_st := ls_set_last (set_nth i v).
+Definition combine_latest_metadata (p : latest_st) : list (option md) := ls_meta p.
+Definition combine_latest_metadata_getitem (i : nat) (p : latest_st) : option md := nth i (ls_meta p) None.
+Definition combine_latest_metadata_setitem (i : nat) (m : md) : latest_st -> latest_st := ls_set_meta (set_nth i (Some m)).
+Definition combine_latest_missing (p : latest_st) : list bool := ls_missing p.
+Definition combine_latest_missing_contains (i : nat) (p : latest_st) : bool := nth i (ls_missing p) false.
+Definition combine_latest_missing_remove (i : nat) : latest_st -> latest_st := ls_set_missing (set_nth i false).
+(* self.emit_on: the upstreams that trigger an emission (all of them when the argument was None) *)
+Definition combine_latest_emit_on_contains (emit_on : option (list nat)) (i : nat) : bool :=
+  match emit_on with None => true | Some ps => existsb (Nat.eqb i) ps end.
+
+Definition zip_latest_last := combine_latest_last.
+Definition zip_latest_last_setitem := combine_latest_last_setitem.
+Definition zip_latest_metadata := combine_latest_metadata.
+Definition zip_latest_metadata_getitem := combine_latest_metadata_getitem.
+Definition zip_latest_metadata_setitem := combine_latest_metadata_setitem.
+Definition zip_latest_missing := combine_latest_missing.
+Definition zip_latest_missing_contains := combine_latest_missing_contains.
+Definition zip_latest_missing_remove := combine_latest_missing_remove.
+Definition zip_latest_lossless_buffer (p : latest_st) : list (val * md) := ls_buf p.
+Definition zip_latest_lossless_buffer_append (e : val * md) : latest_st -> latest_st := ls_set_buf (fun b => b ++ [e]).
+Definition zip_latest_lossless_buffer_popleft (p : latest_st) : option ((val * md) * latest_st) :=
+  match ls_buf p with
+  | e :: t => Some (e, ls_set_buf (fun _ => t) p)
+  | [] => None
+  end.
